@@ -244,3 +244,6 @@ Proof.
 Qed.
 Print Assumptions reduce_user_tie.
 Print Assumptions alphabet_is_the_image.
+
+(* ---------- the public getters (SequenceParameters) are exactly a return of the backend call with their own arguments ---------- *)
+Lemma fw_get_reduced_alphabet_sequence : g_fw_get_reduced_alphabet_sequence = SReturn (ECall "SeqObj.get_reducedAlphabetSequence"%string [EVar "alphabetSize"%string; EVar "userAlphabet"%string]). Proof. reflexivity. Qed.
